@@ -6,7 +6,7 @@ use crate::rng::Rng;
 use crate::term::*;
 
 pub const KINDS: [&str; 6] = ["proc", "while", "for", "foreach", "catch", "if"];
-pub const CODES: [&str; 7] = ["ok", "error", "return", "break", "continue", "5", "7"];
+pub const CODES: [&str; 12] = ["ok", "error", "return", "break", "continue", "5", "7", "0", "1", "2", "3", "4"];
 
 fn raise_text(r: &Term) -> String {
     match r.nth(0).as_str() {
@@ -87,7 +87,7 @@ pub fn gen(tier: &str, seed: u64) -> Gen {
             }
         }
     }
-    (cases, vec![(format!("{} raising commands (7 codes x levels 0-3, plain return/break/continue/error) x every stack of frames of depth<={} over proc/while/for/foreach/catch/if, a quarter of them after caught failures in the same evaluation", raises.len(), maxdepth), n, thorough)])
+    (cases, vec![(format!("{} raising commands (12 codes - the five standard ones by name and by number, 5 and 7 - x levels 0-3, plain return/break/continue/error) x every stack of frames of depth<={} over proc/while/for/foreach/catch/if, a quarter of them after caught failures in the same evaluation", raises.len(), maxdepth), n, thorough)])
 }
 
 pub fn run(case: &Term) -> Term {
